@@ -974,10 +974,13 @@ def _slice_get(ctx, p, i):
 @model(r'^core::slice::<impl \[.*\]>::swap$')
 def _slice_swap(ctx, p, i, j):
     s = ctx.deref(p)
-    n = X.seq_len(s) if isinstance(s, Seq) else CI(len(s), 64)
     ex = ctx.ex
+    n = ex.slice_len(p, ctx.st)                       # length of the (sub)slice the pointer designates
     if not ctx.panic_if(b_or(ex.binop('Ge', i, n, 'usize'), ex.binop('Ge', j, n, 'usize')), 'slice::swap out of bounds'):
         return X.DIVERGE
+    if p.rng is not None:                             # indices are relative to the window
+        i = ex.binop('Add', i, p.rng[0], 'usize')
+        j = ex.binop('Add', j, p.rng[0], 'usize')
     elems = list(ex.elems_of(s))
     if isinstance(i, CI) and isinstance(j, CI):
         elems[i.v], elems[j.v] = elems[j.v], elems[i.v]
@@ -990,7 +993,7 @@ def _slice_swap(ctx, p, i, j):
             isj = ex.binop('Eq', j, CI(k, 64), 'usize')
             new.append(ite(isi, vj, ite(isj, vi, e)))
         elems = new
-    ctx.write(p, ex.with_elems(s, elems))
+    ctx.write(Ptr(p.root, p.path), ex.with_elems(s, elems))
     return UNIT
 
 
